@@ -547,6 +547,10 @@ class WebSocket:
             If None, it will wait forever until receive a close frame.
         """
         if not self.connected:
+            # The closing handshake is already under way or done (the server's
+            # close frame was answered, or send_close() was used): there is
+            # nothing left to send, but the socket must still be released.
+            self.shutdown()
             return
         if status < 0 or status >= ABNF.LENGTH_16:
             raise ValueError("code is invalid range")
